@@ -262,9 +262,11 @@ def execute_mpo_case(case):
     if case['bad_charge']:
         # add a term whose total charge differs: must be rejected
         charged = [k for k, v in named.items() if any(v.n)]
-        if charged and len(terms) >= 1:
+        # (terms whose operator product vanishes, e.g. sm sm on one site, are skipped by generate_mpo and do not count)
+        alive = [t for t in terms if np.linalg.norm(JW.jw_product(sp, [named[k] for k in t['ops']], t['pos'], N)) > 0]
+        if charged and len(alive) >= 1:
             extra = {'amp': 1, 'pos': [0], 'ops': [charged[0]]}
-            tot0 = gsum(sp.sym, [named[k].n for k in terms[0]['ops']], [1] * len(terms[0]['ops']))
+            tot0 = gsum(sp.sym, [named[k].n for k in alive[0]['ops']], [1] * len(alive[0]['ops']))
             if tuple(named[charged[0]].n) != tot0:
                 hts = [mps.Hterm(cx(t['amp']), tuple(t['pos']), tuple(named[k] for k in t['ops'])) for t in terms + [extra]]
                 try:
